@@ -1,5 +1,6 @@
 import Ndt.Num
 import Ndt.Model.Diff
+import Ndt.Gen.HessCells
 /-!
 Model of the real-step `HessianDifferenceFunctions` (finite_difference.py:229-333): the double loop fills the
 upper triangle `i ≤ j` and mirrors it (`hess[j, i] = hess[i, j]`).  Vectors are functions `Nat → K`.
@@ -7,9 +8,8 @@ upper triangle `i ≤ j` and mirrors it (`hess[j, i] = hess[i, j]`).  Vectors ar
 namespace Ndt
 variable {K : Type} [Add K] [Sub K] [Mul K] [Div K] [Neg K] [OfNat K 0] [OfNat K 1] [OfNat K 2] [OfNat K 4]
 
-/-- `x + a e_i + b e_j` -/
-def shift2 (x : Nat → K) (i : Nat) (a : K) (j : Nat) (b : K) : Nat → K :=
-  fun k => x k + (if k = i then a else 0) + (if k = j then b else 0)
+-- `shift2 x i a j b` = `x + a e_i + b e_j` is declared next to the generated cells, `Ndt.Gen.shift2`
+export Ndt.Gen (shift2)
 
 /-- `_forward` (Ridout eq. 7): `(f(x+e_i+e_j) - f(x+e_i) - f(x+e_j) + f(x)) / (h_j h_i)` -/
 def hessForwardCell (f : (Nat → K) → K) (fx : K) (x h : Nat → K) (i j : Nat) : K :=
